@@ -50,6 +50,30 @@ def main():
             ck.violation('OO %s %s sizes=%s %s(k=%s) failing comparison %s of %s (raising %s): %s' % (
                 mm['impl'], 'set' if mm['is_set'] else 'map', mm['sizes'], mm['op'], mm.get('k'), mm.get('fail_at'),
                 mm.get('comparisons'), mm.get('exc'), mm['kind']), mm)
+    # 3. the same faults on a *stored* tree (C, under the data manager): the exception reaches the caller and no node stays
+    #    pinned - after a failed comparison anywhere in get / set / delete / pop / setdefault / insert / popitem, a range
+    #    search, minKey / maxKey, every node can still be evicted (a node left in use would stay in memory for good)
+    plan2 = []
+    for (nk, lf, it, evfn, fn, n) in evdumps:
+        idx = list(range(n))
+        ck.rng.shuffle(idx)
+        sel = idx[:80] if quick else idx
+        parts = 4 if quick else 8
+        for is_set in (True, False):
+            for p in range(parts):
+                plan2.append(dict(impl='c', is_set=is_set, leaf=lf, internal=it, dump=fn, events=evfn, revents=None,
+                                  indices=sorted(sel[p::parts]), query_every=2 if quick else 1, sweeps=False, faults=True))
+    for job, res, err in jobs.run_jobs('harness.workers.pins_worker', plan2):
+        ident = dict(impl=job['impl'], is_set=job['is_set'], sizes=[job['leaf'], job['internal']])
+        if err:
+            ck.violation('pins worker died %s: %s' % (ident, err), dict(ident, kind='crash', err=err))
+            continue
+        ck.bump('stored_calls', res['counts']['calls'])
+        ck.bump('stored_faults', res['counts'].get('faults', 0))
+        ck.add_traces(res['counts'].get('faults', 0))
+        for mm in res['mismatches']:
+            ck.violation('OO c %s sizes=%s stored tree, %s(k=%s) failing comparison %s: %s' % (
+                'set' if mm['is_set'] else 'map', mm['sizes'], mm['op'], mm.get('k'), mm.get('fail_at'), mm['kind']), mm)
     if plan:
         ck.sample(dict(kind='fault job', job={k: v for k, v in plan[0].items() if k not in ('indices',)}, shapes=len(plan[0]['indices'])))
     ck.assumptions += ['object keys of one instrumented class; the fault is an exception raised inside __lt__/__eq__ (or the '
